@@ -506,6 +506,8 @@ def directed():
                 yield dict(c, recv=recv)
     for c in pairs_directed():
         yield c
+    for c in narrow_rowlist_cases():
+        yield c
     for c in longrow_cases():
         yield c
     for c in tall_narrow_cases():
@@ -800,6 +802,24 @@ def pairs_case(rng, lens, recv="fresh", refuse=False):
     if g is None:
         return None
     return {"kind": "pairs", "lens": list(lens), "R": g[0], "C": g[1], "form": g[2], "recv": recv}
+
+
+def narrow_rowlist_cases():
+    """row lists carried by a narrow signed type that ask for more rows than there are, in an order whose neighbour differences do not fit the
+    type (69 followed by -60 in int8); and: a first question to an unread column view, then a question about some of its rows"""
+    lens = [(i * 5) % 4 for i in range(70)]
+    for rs_ in ([0] * 3 + [69] * 3 + list(range(-64, 0)) + [-1] * 10, [5, 69] + [-60] * 75, list(range(0, 70)) + [-70, -69, -1], [127 % 70, 69, -70] + [-1] * 70):
+        for dt_ in ("int8", "int16"):
+            for cs_, h_ in ((None, False), (slice(1, None), True), (0, True)):
+                if h_ and isinstance(cs_, int) and any(lens[r_] == 0 for r_ in rs_):
+                    continue
+                for recv_ in ("fresh", "lazyrows"):
+                    yield mk_case(lens, np.array(rs_, dtype=dt_), cs_, h_, recv_)
+    L4 = [3, 1, 4, 2, 5]
+    for recv_ in ("lazycols+2", "lazycols-1", "lazychain", "fresh", "lazytail-parent-used"):
+        for j0_ in (0, -1):
+            for then_ in ([[0, 2, 4], 2, True], [[2, 4], 3, True], [np.array([True, False, True, False, True]), 2, True], [[4], 4, True], [[2], -4, True], [slice(2, None, 2), 3, True], [[0, 1], 1, True]):
+                yield dict(mk_case(L4, slice(None), j0_, True, recv_), then=then_)
 
 
 def pairs_directed():
